@@ -11,5 +11,6 @@ for d in checks/c*/; do
   n=$(basename "$d")
   go build -tags verif -o "bin/$n" "./$d" || rc=1
 done
+GOARCH=386 go build -tags verif -o bin/c19.386 ./checks/c19 || rc=1
 if [ -x tools/prebuild_race.sh ]; then tools/prebuild_race.sh || true; fi
 exit $rc
